@@ -153,7 +153,7 @@ def mk_hole(kind, n):
             # a trailing `*` would pair with the closing `*/` harmlessly; a `/` right after the opening `*` cannot occur
             return True
         if kind == 'paren':
-            return True if fold(v, lambda o: (o != 40) & (o != 41) & (o != 34) & (o != 39) & (o != 92) & (o != 47)) else False
+            return True if fold(v, lambda o: (o != 40) & (o != 41) & (o != 34) & (o != 39) & (o != 92) & (o != 47) & (o != 59) & (o != 123) & (o != 125)) else False
         if kind == 'paren-delims':
             if len(v) == 0:
                 return False
